@@ -313,11 +313,11 @@ fn check_value<D: Store + Mk>(v: &V, probe_absent: &[u64], acc: &mut Acc) {
 fn adversarial_keys(r: &mut Rng, n: usize) -> Vec<u64> {
     let n64 = n.max(1) as u64;
     let mut keys: Vec<u64> = match r.below(7) {
-        0 => (0..n as u64).map(|i| 5 + i * n64).collect(),          // all congruent mod n
+        0 => (0..n as u64).map(|i| 5u64.wrapping_add(i.wrapping_mul(n64))).collect(),          // all congruent mod n
         1 => (0..n as u64).collect(),                                 // 0,1,2.. (small = addresses)
         2 => (0..n as u64).map(|i| u64::MAX - i).collect(),          // top of the range
-        3 => (0..n as u64).map(|i| i * 0x9E37_79B9_7F4A_7C15).collect(),
-        4 => (0..n as u64).map(|i| (i + 1) * n64).collect(),         // all multiples of n
+        3 => (0..n as u64).map(|i| i.wrapping_mul(0x9E37_79B9_7F4A_7C15)).collect(),
+        4 => (0..n as u64).map(|i| (i + 1).wrapping_mul(n64)).collect(),         // all multiples of n
         5 => (0..n as u64).map(|i| 1u64 << (i % 64)).chain(std::iter::empty()).collect(),
         _ => (0..n).map(|_| r.next()).collect(),
     };
